@@ -56,3 +56,8 @@ func kernPairWF(k *KernPair) bool {
 //@ safety C19
 //@ requires f != nil
 //@ ensures [C19.width] (has(f.Glyphs, name) && f.Glyphs[name] != nil ==> result == f.Glyphs[name].WidthX) && (!(has(f.Glyphs, name) && f.Glyphs[name] != nil) && has(f.Glyphs, ".notdef") && f.Glyphs[".notdef"] != nil ==> result == f.Glyphs[".notdef"].WidthX) && (!(has(f.Glyphs, name) && f.Glyphs[name] != nil) && !(has(f.Glyphs, ".notdef") && f.Glyphs[".notdef"] != nil) ==> result == 0)
+
+// C13: a read fault of the underlying reader (ghost flag rfault()) while the
+// lines are scanned makes Read fail (bufio.Scanner.Err is checked).
+//@ func Read
+//@ ensures [C13.afm.read] !old(rfault()) && rfault() ==> result1 != nil
